@@ -4,7 +4,7 @@ mod cover;
 
 use cover::Cover;
 use re::geom::vertex;
-use re::math::color::{rgb, Color3f};
+use re::math::color::{rgb, rgba, Color3f, Color4f};
 use re::math::point::pt3;
 use re::math::{pt2, vec2, vec3, Point2, Vary, Vec2, Vec3};
 use re::render::raster::tri_fill;
@@ -53,7 +53,8 @@ struct Sl { y: usize, x0: usize, x1: usize, nfrag: usize }
 fn fill_cover(t: [(f32, f32); 3]) -> Result<Vec<Sl>, String> {
     let vs = t.map(|(x, y)| vertex(pt3(x, y, 1.0), ()));
     let mut out = vec![];
-    caught(|| tri_fill(vs, |mut sl| { let n = sl.fragments().count(); out.push(Sl { y: sl.y, x0: sl.xs.start, x1: sl.xs.end, nfrag: n }); }))?;
+    // (a span wider than 2^16 pixels is far outside every triangle enumerated here: recorded without walking it)
+    caught(|| tri_fill(vs, |mut sl| { let wild = sl.xs.end.saturating_sub(sl.xs.start) > 1 << 16; let n = if wild { sl.xs.end - sl.xs.start } else { sl.fragments().count() }; out.push(Sl { y: sl.y, x0: sl.xs.start, x1: sl.xs.end, nfrag: n }); }))?;
     Ok(out)
 }
 
@@ -65,7 +66,11 @@ fn check_cover(t: [(f32, f32); 3], r: &mut Report, fam: &str) {
     let ti = t.map(|(x, y)| (exact(x), exact(y)));
     let mut covered = std::collections::BTreeSet::new();
     let mut last_y: Option<usize> = None;
+    let (bx0, bx1) = (t.iter().map(|p| p.0).fold(f32::MAX, f32::min).floor() as i128 - 1, t.iter().map(|p| p.0).fold(0.0, f32::max).ceil() as i128 + 1);
+    let (by0, by1) = (t.iter().map(|p| p.1).fold(f32::MAX, f32::min).floor() as i128 - 1, t.iter().map(|p| p.1).fold(0.0, f32::max).ceil() as i128 + 1);
     for s in &sls {
+        // scanlines (partly) outside the bounding box are reported at once instead of being walked pixel by pixel
+        if s.x1 > s.x0 && ((s.y as i128) < by0 || (s.y as i128) > by1 || (s.x0 as i128) < bx0 || (s.x1 as i128) > bx1 + 1) { r.violation(key("extra"), format!("triangle {t:?}: scanline y={} x={}..{} reaches outside the triangle's bounding box", s.y, s.x0, s.x1), case()); return; }
         if let Some(ly) = last_y { if s.y <= ly { r.violation(key("scanline-order"), format!("scanline y={} after y={ly}", s.y), case()); return; } }
         last_y = Some(s.y);
         let len = s.x1.saturating_sub(s.x0);
@@ -107,6 +112,7 @@ impl Attr for f32 { const NAME: &'static str = "f32"; const N: usize = 1; fn mak
 impl Attr for Vec2 { const NAME: &'static str = "Vec2"; const N: usize = 2; fn make(c: &[f32]) -> Self { vec2(c[0], c[1]) } fn comps(&self) -> Vec<f64> { self.0.iter().map(|x| *x as f64).collect() } }
 impl Attr for Vec3 { const NAME: &'static str = "Vec3"; const N: usize = 3; fn make(c: &[f32]) -> Self { vec3(c[0], c[1], c[2]) } fn comps(&self) -> Vec<f64> { self.0.iter().map(|x| *x as f64).collect() } }
 impl Attr for Point2 { const NAME: &'static str = "Point2"; const N: usize = 2; fn make(c: &[f32]) -> Self { pt2(c[0], c[1]) } fn comps(&self) -> Vec<f64> { self.0.iter().map(|x| *x as f64).collect() } }
+impl Attr for Color4f { const NAME: &'static str = "Color4f"; const N: usize = 4; fn make(c: &[f32]) -> Self { rgba(c[0], c[1], c[2], c[3]) } fn comps(&self) -> Vec<f64> { self.0.iter().map(|x| *x as f64).collect() } }
 impl Attr for Color3f { const NAME: &'static str = "Color3f"; const N: usize = 3; fn make(c: &[f32]) -> Self { rgb(c[0], c[1], c[2]) } fn comps(&self) -> Vec<f64> { self.0.iter().map(|x| *x as f64).collect() } }
 impl Attr for (f32, Vec2) { const NAME: &'static str = "(f32,Vec2)"; const N: usize = 3; fn make(c: &[f32]) -> Self { (c[0], vec2(c[1], c[2])) } fn comps(&self) -> Vec<f64> { vec![self.0 as f64, self.1 .0[0] as f64, self.1 .0[1] as f64] } }
 
@@ -124,7 +130,9 @@ fn check_interp<A: Attr>(t: [(f32, f32); 3], zi: usize, r: &mut Report, fam: &st
     let case = || obj! {"kind" => "interp", "type" => A::NAME, "fam" => fam, "zi" => zi, "t" => J::Arr(t.iter().flat_map(|p| [fbits(p.0), fbits(p.1)]).collect())};
     let verts: [_; 3] = std::array::from_fn(|k| vertex(pt3(t[k].0, t[k].1, zs[k]), A::make(&v[k])));
     let mut frags: Vec<(usize, usize, [f32; 3], Vec<f64>)> = vec![];
-    let res = caught(|| tri_fill(verts, |mut sl| { let (y, x0) = (sl.y, sl.xs.start); for (i, f) in sl.fragments().enumerate() { frags.push((x0 + i, y, f.pos.0, f.var.comps())); } }));
+    let mut wild = None;
+    let res = caught(|| tri_fill(verts, |mut sl| { let (y, x0) = (sl.y, sl.xs.start); if sl.xs.end.saturating_sub(x0) > 1 << 16 { wild = Some((y, x0, sl.xs.end)); return; } for (i, f) in sl.fragments().enumerate() { frags.push((x0 + i, y, f.pos.0, f.var.comps())); } }));
+    if let Some((y, a, b)) = wild { r.violation(key("frag-position"), format!("scanline y={y} spans x={a}..{b}, far outside the triangle"), case()); return; }
     if let Err(p) = res { r.violation(key("fill-panic"), format!("tri_fill panicked: {p}"), case()); return; }
     // exact geometry in f64 (inputs are exactly representable)
     let p: [[f64; 2]; 3] = t.map(|(x, y)| [x as f64, y as f64]);
@@ -220,7 +228,7 @@ fn main() {
             if c.get("kind").and_then(|j| j.as_str()) == Some("cover") { check_cover(t, r, &fam); }
             else {
                 let zi = c.get("zi").and_then(|j| j.as_u64()).unwrap_or(0) as usize;
-                match c.get("type").and_then(|j| j.as_str()).unwrap_or("") { "f32" => check_interp::<f32>(t, zi, r, &fam), "Vec2" => check_interp::<Vec2>(t, zi, r, &fam), "Vec3" => check_interp::<Vec3>(t, zi, r, &fam), "Point2" => check_interp::<Point2>(t, zi, r, &fam), "Color3f" => check_interp::<Color3f>(t, zi, r, &fam), _ => check_interp::<(f32, Vec2)>(t, zi, r, &fam) }
+                match c.get("type").and_then(|j| j.as_str()).unwrap_or("") { "f32" => check_interp::<f32>(t, zi, r, &fam), "Vec2" => check_interp::<Vec2>(t, zi, r, &fam), "Vec3" => check_interp::<Vec3>(t, zi, r, &fam), "Point2" => check_interp::<Point2>(t, zi, r, &fam), "Color3f" => check_interp::<Color3f>(t, zi, r, &fam), "Color4f" => check_interp::<Color4f>(t, zi, r, &fam), _ => check_interp::<(f32, Vec2)>(t, zi, r, &fam) }
             }
         });
     }
@@ -248,7 +256,7 @@ fn main() {
                     if zi % 2 == 0 || !quick { check_interp::<(f32, Vec2)>(t, zi, r, name); }
                     if zi % 4 == 1 || !quick { check_interp::<f32>(t, zi + 27, r, name); check_interp::<f32>(t, zi + 54, r, name); }
                     if zi % 13 == 5 || (!quick && zi % 3 == 1) { check_interp::<(f32, Vec2)>(t, zi + 27, r, name); check_interp::<(f32, Vec2)>(t, zi + 54, r, name); }
-                    if zi % 13 == 5 || (!quick && zi % 3 == 1) { check_interp::<Vec2>(t, zi, r, name); check_interp::<Vec3>(t, zi, r, name); check_interp::<Color3f>(t, zi, r, name); check_interp::<Point2>(t, zi, r, name); }
+                    if zi % 13 == 5 || (!quick && zi % 3 == 1) { check_interp::<Vec2>(t, zi, r, name); check_interp::<Vec3>(t, zi, r, name); check_interp::<Color3f>(t, zi, r, name); check_interp::<Color4f>(t, zi, r, name); check_interp::<Point2>(t, zi, r, name); }
                 }
             }));
         }
@@ -262,7 +270,7 @@ fn main() {
             &["screen coordinates in [0, 64] (negative pixel coordinates are outside tri_fill's usize domain)", "z = 1, attribute ()"]);
     } else {
         rep.finish(&cfg, "exploration",
-            "triangles as for C04 (thinned in the quick tier) x all 27 reciprocal-depth assignments over {1, 0.5, 0.1} (w ratio up to 10:1), also with all three scaled by 2^-24 and 2^10 (f32 attribute; other types on a subset), x attribute types f32, (f32,Vec2) and, on a stated subset, Vec2, Vec3, Color3f, Point2 with distinct non-constant vertex values handed over pre-divided (a*z). Oracle: f64 barycentric planes through the vertex depths and values at the pixel centre; var = value plane / depth plane; tolerance 0.5% of the vertex range; every fragment finite for area > 1e-6 (triangles with minimum altitude < 0.05 px are judged for finiteness and position only); reported position within 1e-3 px of the pixel centre. non-trivial = triangle with >= 1 fragment fully judged.",
+            "triangles as for C04 (thinned in the quick tier) x all 27 reciprocal-depth assignments over {1, 0.5, 0.1} (w ratio up to 10:1), also with all three scaled by 2^-24 and 2^10 (f32 attribute; other types on a subset), x attribute types f32, (f32,Vec2) and, on a stated subset, Vec2, Vec3, Color3f, Color4f, Point2 with distinct non-constant vertex values handed over pre-divided (a*z). Oracle: f64 barycentric planes through the vertex depths and values at the pixel centre; var = value plane / depth plane; tolerance 0.5% of the vertex range; every fragment finite for area > 1e-6 (triangles with minimum altitude < 0.05 px are judged for finiteness and position only); reported position within 1e-3 px of the pixel centre. non-trivial = triangle with >= 1 fragment fully judged.",
             &["coordinates in [0, 64]", "tolerance 0.005*range + 1e-5*max|value|"]);
     }
 }
